@@ -14,6 +14,7 @@ type Attempt struct {
 	CandSt    []int64
 	Order     []int64 // evictions in pop order
 	QOrder    []int64 // the candidates in the pop order of the victims queue
+	PAlloc    []int64 // what the preemptor's job held at the vote
 	Pipelined int64   // node the preemptor was pipelined on by this attempt, 0 = none
 	Preemptor int64
 	Action    int64 // 1 preempt, 2 reclaim
@@ -28,6 +29,7 @@ type CandObs struct {
 	ID, Status int64
 	JobReady   int64   // ReadyTaskNum of the candidate's job at vote time
 	QAlloc     []int64 // allocated of the candidate's queue at vote time (recorder ledger), EncRes
+	JAlloc     []int64 // allocated of the candidate's job at vote time
 }
 
 type TaskGroup struct {
@@ -100,7 +102,7 @@ func (w *World) Reconstruct() []Choice {
 				att = nil
 				continue
 			}
-			att = &Attempt{Node: e.Node, Cands: e.Cands, CandSt: e.CandSt, QOrder: e.QOrder, Preemptor: e.Task, Action: act, Obs: e.obs}
+			att = &Attempt{Node: e.Node, Cands: e.Cands, CandSt: e.CandSt, QOrder: e.QOrder, PAlloc: e.PAlloc, Preemptor: e.Task, Action: act, Obs: e.obs}
 		case 0:
 			if e.Status == sched.SReleasing {
 				if act == 3 && att == nil {
@@ -185,7 +187,7 @@ func topoAttempt(dry []TraceEv, node int64, cur *TaskGroup) *Attempt {
 	}
 	for _, d := range dry {
 		if d.Node == node && d.Task == cur.Task {
-			return &Attempt{Node: node, Cands: d.Cands, CandSt: d.CandSt, QOrder: d.QOrder, Preemptor: d.Task, Action: 1, Obs: d.obs, Topo: true}
+			return &Attempt{Node: node, Cands: d.Cands, CandSt: d.CandSt, QOrder: d.QOrder, PAlloc: d.PAlloc, Preemptor: d.Task, Action: 1, Obs: d.obs, Topo: true}
 		}
 	}
 	panic(fmt.Sprintf("topology-aware preempt acts on n%d without a dry run there", node))
